@@ -176,7 +176,13 @@ def rand_strategy(tier):
     def s(draw):
         b = draw(st.sampled_from(model.BIN_TYPES))
         T = sorted(draw(st.lists(fl, min_size=2 if b in model.WITHIN_TYPES else 1, max_size=4)))
-        vals = draw(st.lists(st.one_of(val, st.sampled_from(T)), min_size=1, max_size=6))
+        # values ON a threshold and values that miss it by the smallest amounts (one ulp, 1e-9 and 1e-6 relative):
+        # membership is an exact comparison, not a comparison within a tolerance
+        near = []
+        for t in T:
+            near += [t, math.nextafter(t, math.inf), math.nextafter(t, -math.inf), t + abs(t) * 1e-9 + 1e-12, t - abs(t) * 1e-9 - 1e-12,
+                     t * (1 + 1e-6) + 1e-9, t * (1 - 1e-6) - 1e-9]
+        vals = draw(st.lists(st.one_of(val, st.sampled_from(T), st.sampled_from(near), st.sampled_from(near)), min_size=1, max_size=6))
         return {"bin_type": b, "thresholds": T, "values": vals}
     return s()
 
